@@ -92,9 +92,11 @@ var c12Layout = []string{
 	"@@\n@@\n-func helper() {\n+func helper2() {\n   ...\n }\n",
 	"@@\nvar x expression\n@@\n-debug(x)\n",
 	"@@\n@@\n-return nil\n+return wrap(nil)\n",
+	"@@\nvar x expression\n@@\n-unwrap(x)\n+x\n",
 }
 
 var c12LayoutSources = map[string]string{
+	"inline.go": "package main\n\nfunc run() error {\n\tsetup()\n\tv := add(unwrap(20 /* twenty */), 1) // sum\n\tlog(unwrap(v /* inner */ + /* plus */ 2))\n\treturn nil\n}\n",
 	"run.go": "package main\n\nfunc run() error {\n\tsetup()\n\t// Open it.\n\terr := open()\n\tif err != nil {\n\t\tlog(err)\n\t\treturn err\n\t}\n\treturn nil\n}\n",
 	"two.go": "package main\n\n// helper helps.\nfunc helper() {\n\tdebug(func() { // inner\n\t\tx()\n\t})\n\n\tlog(1) // gone\n}\n\nfunc run() error {\n\tsetup() // trailing\n\n\tdebug(1)\n\n\t/* block */\n\terr := open()\n\tif err != nil {\n\t\treturn err\n\t}\n\n\treturn nil\n}\n",
 }
@@ -169,9 +171,12 @@ func c12Applies(change string, src string) bool {
 
 func c12Gen(tier string, emit func(any)) {
 	for _, p := range c12LayoutPatches(tier) {
-		for mask := 1; mask < 4; mask++ {
+		for mask := 1; mask < 8; mask++ {
+			if mask > 4 && mask != 7 {
+				continue
+			}
 			files := map[string]string{}
-			for i, n := range []string{"run.go", "two.go"} {
+			for i, n := range []string{"run.go", "two.go", "inline.go"} {
 				if mask&(1<<i) != 0 {
 					files[n] = c12LayoutSources[n]
 				}
